@@ -2,7 +2,7 @@
 use crate::core::rng::Rng;
 
 pub const PKG: &[&str] = &["a", "b", "c", "foo", "bar", "libc6", "python3-dulwich", "g++", "lib.x", "z"];
-pub const VERSIONS: &[&str] = &["1", "1.0-1", "2.0~rc1", "1:2.0-1+b1", "0.9", "3"];
+pub const VERSIONS: &[&str] = &["1:2:3-1", "1", "1.0-1", "2.0~rc1", "1:2.0-1+b1", "0.9", "3"];
 pub const OPS: &[&str] = &["<<", "<=", "=", ">=", ">>"];
 pub const ARCHS: &[&str] = &["amd64", "i386", "arm64", "linux-any", "any", "hurd-i386"];
 pub const PROFILES: &[&str] = &["stage1", "nocheck", "cross", "nodoc", "pkg.foo.bar"];
